@@ -2,9 +2,9 @@
 import os
 import vlib, engine_common as ec
 
-TB = ["Print Assumptions: C01_core_sound, C01_core_unguarded_refuted, C01_core_no_panic, C01_fw_sound, C01_fw_unguarded_refuted, C01_model_sound, C01_model_sound_x, C01_model_no_panic, C01_model_unguarded_refuted closed under the global context",
+TB = ["Print Assumptions: C01_core_sound, C01_core_unguarded_refuted, C01_core_no_panic, C01_fw_sound, C01_fw_unguarded_refuted, C01_model_sound, C01_model_sound_x, C01_model_sound_any_task_order, C01_model_identity_order_is_run_history, C01_model_no_panic, C01_model_unguarded_refuted closed under the global context",
       "C01_core_sound is about Engine/Core.v (inputs + Normal queries), C01_fw_sound about Engine/Fw.v (adds Firewall queries and the transitive-firewall-callee bookkeeping), C01_model_sound about the full model Engine/Model.v itself (`step`, `run_history`) for programs with Normal, Firewall and Projection queries, unordered groups and (C01_model_sound_x) external inputs with world changes and refresh; all three models are compared with the real engine on this run. The tie between model and code is the correspondence run, not a proof (partial)",
-      "the model runs the parallel tasks of one request one after the other (transitive-firewall repair, backward projections): C01_model_sound is about that sequential schedule; other task orders of the real engine are covered by the oracle runs only",
+      "the model runs the parallel tasks of one request (transitive-firewall repair, backward projections) one after the other; C01_model_sound_any_task_order covers every ORDER of those tasks (state-dependent permutation oracles), true interleaving (a task suspended while another runs) is covered by the oracle runs only",
       ] + ec.ENGINE_TB
 
 def run(ctx):
